@@ -477,7 +477,9 @@ def bigsum(n, body_at, tag="bigsum"):
     """Sum_{r=0}^{n-1} body_at(r), kept symbolic with a canonical bound variable (two sums are equal terms iff
     their bounds and bodies are)."""
     R0 = z3.Int("R0!canon")
-    return U(tag, RealS, lift(n), body_at(R0))
+    # the summand is guarded by the range of the canonical bound variable: two sums are then equal as soon as their
+    # summands agree INSIDE the range (congruence on the guarded body)
+    return U(tag, RealS, lift(n), z3.If(z3.And(0 <= R0, R0 < lift(n)), body_at(R0), ZERO))
 
 
 def delta_sum(cx, n, body_at):
@@ -485,6 +487,14 @@ def delta_sum(cx, n, body_at):
     The delta structure is CHECKED by z3 (not assumed); otherwise the sum stays symbolic."""
     r = z3.Int("R0!canon")
     t = body_at(r)
+    # a sum over exactly one index
+    s1 = z3.Solver()
+    s1.set("timeout", 2000)
+    for h in cx.pc:
+        s1.add(h)
+    s1.add(lift(n) != 1)
+    if s1.check() == z3.unsat:
+        return z3.substitute(t, (r, z3.IntVal(0)))
     cands = []
     for a in _atoms(t):
         if z3.is_eq(a):
